@@ -50,7 +50,16 @@ def make_jobs(ctx, files, root, deep=False):
         for f in files:
             jobs.append(dict(src=f, rel=os.path.relpath(f, root), subs=None, seed=0, times='all',
                              skips=64 if th else 16, addr_stride=1, tok_stride=1))
-    plan = [('directed15', 2 if th else 1), ('directed-neg2', 2 if th else 1), ('dup-rows', 4 if th else 2), ('first-rows', 6 if th else 2),
+    if not deep:
+        # the statement again, in a process that has used the other fixed-format readers first and with listings of the other
+        # simulators open at the same time (each job runs in a process of its own)
+        for f in files:
+            rel = os.path.relpath(f, root)
+            comp = [c for c in W.COMPANIONS if c != rel and os.path.exists(os.path.join(root, c))]
+            random.Random(ctx.rng.randrange(1 << 30)).shuffle(comp)
+            jobs.append(dict(src=f, rel=rel, subs=None, seed=0, times='all', skips=4 if th else 2, addr_stride=11, tok_stride=1000,
+                             interference={'prelude': True, 'companions': comp}))
+    plan = [('directed15', 2 if th else 1), ('directed-neg2', 2 if th else 1), ('dup-rows', 4 if th else 2), ('short-rows', 4 if th else 2), ('first-rows', 6 if th else 2),
             ('layout', 8 if th else 3), ('random', 70 if th else 7)]
     for f in files:
         rel = os.path.relpath(f, root)
@@ -220,8 +229,14 @@ def addressing_corr(ctx, exe):
     ctx.corr_cases(ADR_CORR, len(cases), **dist)
 
 
+def preload():
+    """the modules are imported before the pool forks, so that a fresh process per job costs no import time"""
+    import numpy, t2listing, t2incons, t2data, mulgrids      # noqa
+
+
 def run_pool(jobs):
-    with multiprocessing.Pool(vf.NPROC) as pool:
+    preload()
+    with multiprocessing.Pool(vf.NPROC, maxtasksperchild=1) as pool:
         return pool.map(W.process, jobs, chunksize=1)
 
 
@@ -249,7 +264,8 @@ def run(ctx):
     if len(files) != 37: ctx.log('note: %d listing files found (37 expected)' % len(files))
     jobs = make_jobs(ctx, files, root)
     ctx.stage()
-    pool = multiprocessing.Pool(vf.NPROC)                # forked before any thread exists
+    preload()
+    pool = multiprocessing.Pool(vf.NPROC, maxtasksperchild=1)   # forked before any thread exists; one process per job: no job sees the state another left
     async_res = pool.map_async(W.process, jobs, chunksize=1)
     ok = ctx.coq_build(props=('Props.v', 'Props2.v', 'Props3.v'), timeout=1500)
     exe = vf.build_driver(ctx) if os.path.exists(os.path.join(ctx.build, 'Drv.ml')) else None
@@ -264,7 +280,10 @@ def run(ctx):
         ctx.log('correspondence cases:', cnt)
         file_level(ctx, exe, files, root, results)
         addressing_corr(ctx, exe)
-    plain = [r for r in results if not r.get('variant')]
+    itf = [r for r in results if r.get('interference')]
+    ctx.oracle_cases('with-other-activity', len(itf), rows=sum(r['stats'].get('rows', 0) for r in itf),
+                     companions_open=sum(r['stats'].get('companions_open', 0) for r in itf), routes=sum(r['stats'].get('routes', 0) for r in itf))
+    plain = [r for r in results if not r.get('variant') and not r.get('interference')]
     var = [r for r in results if r.get('variant') and r.get('subs')]
     ctx.oracle_cases('shipped-listings', len(plain), rows=sum(r['stats'].get('rows', 0) for r in plain),
                      cells=sum(r['stats'].get('cells', 0) for r in plain), tables=sum(r['stats'].get('tables', 0) for r in plain),
@@ -303,7 +322,8 @@ def replay(ctx, data):
     if not rel: return True
     root, files = listing_files(ctx.repo)
     src = os.path.join(root, rel)
-    job = dict(src=src, rel=rel, subs=inp.get('subs'), seed=0, times='all', skips=0, addr_stride=1, tok_stride=1000)
+    job = dict(src=src, rel=rel, subs=inp.get('subs'), seed=0, times='all', skips=0, addr_stride=1, tok_stride=1000,
+               interference=inp.get('interference'))
     if inp.get('skip'): job['skip_sets'] = [inp['skip']]
     r = W.process(job)
     key = data.get('finding_key')
